@@ -37,6 +37,9 @@ def _typed_root(a):
     return r
 
 
+UNCLASSIFIED: list = []  # paths of arrays kept concrete because no harness policy names them (reported in the evidence)
+
+
 class Found:
     __slots__ = ("path", "arr", "setter")
 
@@ -112,10 +115,14 @@ def symbolise(root_obj, policy, name="obj", prefix=""):
         for f in items:
             k = policy(f.path, f.arr)
             if k is None:
-                raise S.SymError(f"array {f.path} {f.arr.shape} {f.arr.dtype} is not classified by the harness")
+                # an array the harness does not know (e.g. a cache added by a refactor): keep its concrete content -
+                # the state the real constructor produced - and report it (no over-approximation, hence no false alarm)
+                k = ("follow", None)  # shares the fate of the classified views of the same buffer, if any
+                if f.path not in UNCLASSIFIED:
+                    UNCLASSIFIED.append(f.path)
             kinds[f.path] = k
-        ks = {k[0] for k in kinds.values()}
-        if ks == {"keep"}:
+        ks = {k[0] for k in kinds.values()} - {"follow"}
+        if ks == {"keep"} or not ks:
             continue
         if "keep" in ks:
             raise S.SymError(f"views of one buffer classified inconsistently: {kinds}")
@@ -123,7 +130,7 @@ def symbolise(root_obj, policy, name="obj", prefix=""):
             # views of one root with mixed fresh/const: treat the whole root as fresh (more general)
             kind = ("fresh", next(k[1] for k in kinds.values() if k[0] == "fresh"))
         else:
-            kind = next(iter(kinds.values()))
+            kind = next(k for k in kinds.values() if k[0] != "follow")
         iscomplex = root.dtype.kind == "c"
         isz = root.itemsize
         if not root.flags.c_contiguous and not root.flags.f_contiguous:
